@@ -84,6 +84,28 @@ static void history(unsigned seed, double expected, int kind, int nevents, long 
   }
 }
 
+// directed history: n stamps (n = 1, 2, W, W+1), then silence with heartbeats at +0.3 s, +0.6 s, +2 s after the last stamp
+static void stamps_then_silence(double expected, int nstamps, long long t0)
+{
+  RateMonitoring mon(expected); Model m(expected);
+  double eps = expected * 0.1;
+  CheckupEqualToRate ce("s", expected, eps); CheckupGreaterThanRate cg("s", expected, eps);
+  Model me(expected);
+  long long t = t0, period = (long long)(1e9 / expected);
+  for (int k = 0; k < nstamps; ++k) { t += period; m.update(t); me.update(t); mon.update(durationFromNanoSecond(t)); ce.evaluate(durationFromNanoSecond(t)); cg.evaluate(durationFromNanoSecond(t)); }
+  for (long long off : {300000000LL, 600000000LL, 2000000000LL}) {
+    long long th = t + off;
+    bool want = m.timeout(th), got = mon.timeout(durationFromNanoSecond(th));
+    if (want != got) FAIL("rate=%g: %d stamp(s) then a heartbeat %.1f s after the last one: timeout()=%d expected %d", expected, nstamps, off / 1e9, (int)got, (int)want);
+    bool wantAlive = !me.timeout(th), alive = ce.heartBeatCallback(durationFromNanoSecond(th)); cg.heartBeatCallback(durationFromNanoSecond(th));
+    if (alive != wantAlive) FAIL("rate=%g: %d stamp(s) then a heartbeat %.1f s after the last one: check-up heartbeat returned %d expected %d", expected, nstamps, off / 1e9, (int)alive, (int)wantAlive);
+    if (!wantAlive)
+      for (DiagnosticReport r : {ce.getReport(), cg.getReport()})
+        if (r.diagnostics.front().status != DiagnosticStatus::STALE || r.diagnostics.front().message != "s_rate timeout." || r.info.begin()->second != "")
+          FAIL("rate=%g: %d stamp(s) then silence of %.1f s: report status=%d message='%s' value='%s' (expected STALE, 's_rate timeout.', '')", expected, nstamps, off / 1e9, (int)r.diagnostics.front().status, r.diagnostics.front().message.c_str(), r.info.begin()->second.c_str());
+  }
+}
+
 int main(int argc, char ** argv)
 {
   std::map<std::string, long long> A;
@@ -92,6 +114,7 @@ int main(int argc, char ** argv)
   long long t0 = A.count("g_last0") && A["g_last0"] >= 0 && A["g_last0"] < 4000000000000000000LL ? A["g_last0"] : 0;
   double rates[] = {0.5, 1, 2, 3.3, 5, 10, 20, 31.9, 50, 100, 200};
   for (double r : rates) for (int kind = 0; kind < 4; ++kind) { history(seed * 977u + kind, r, kind, 500, 0); history(seed * 977u + 7 + kind, r, kind, 300, t0 ? t0 : 1700000000000000000LL); }
+  for (double r : rates) { Model mm(r); for (int n : {0, 1, 2, (int)mm.W, (int)mm.W + 1, (int)mm.W + 2}) { stamps_then_silence(r, n, 0); stamps_then_silence(r, n, 1700000000000000000LL); } }
   if (fails) { printf("%d mismatches\n", fails); return 1; }
   printf("no failing input found: monitor and check-ups follow the reference model over steady, jittered, bursty and silent histories\n");
   return 0;
